@@ -54,8 +54,9 @@ structure St where
   emis : List (Nat × Nat) := []         -- emitted to the sink, not yet delivered
   probes : Nat → PStat := fun _ => .idle
   fired : List (Nat × Bool) := []       -- fault events processed so far
+  cancelled : List Nat := []            -- fault handles with `_cancelled` set
 
-def St.init (c : Case) : St := { avail := (c.cap * SC : Nat) }
+def St.init (c : Case) : St := { avail := (c.cap * SC : Nat), cancelled := c.initCanc }
 
 def St.setSt (s : St) (j : Nat) (st : Status) : St :=
   { s with procs := upd s.procs j { s.procs j with st := st } }
@@ -144,11 +145,21 @@ def St.setCap (s : St) (old new : Nat) : St :=
   let s1 : St := { s with avail := s.avail + (new : Int) - (old : Int) }
   if old < new then s1.wake s1.waiters else s1
 
+def isPartK : Kind → Bool
+  | .part .. => true
+  | _ => false
+
+/-- a fault event the engine cannot have delivered: of a cancelled handle; an event of a scheduled
+    fault a second time (a `Partition.heal()` call may be repeated); an end before the start -/
+def faultBad (s : St) (fid : Nat) (act : Bool) (k : Kind) : Bool :=
+  s.cancelled.contains fid || (s.fired.contains (fid, act) && (act || !isPartK k)) ||
+    (!act && !s.fired.contains (fid, true))
+
 def faultPop (c : Case) (s : St) (fid : Nat) (act : Bool) : St × List Tok :=
   match c.faults[fid]? with
   | none => (s, [.bogus])
   | some ft =>
-    if ft.cancelled || s.fired.contains (fid, act) || (!act && !s.fired.contains (fid, true)) then
+    if faultBad s fid act ft.kind then
       (s, [.bogus])
     else
       let w' := if act then s.ws.activate fid ft.kind else s.ws.deactivate fid ft.kind
@@ -158,7 +169,8 @@ def faultPop (c : Case) (s : St) (fid : Nat) (act : Bool) : St × List Tok :=
 /-- the event is handled (the gate is open) -/
 def stepOpen (c : Case) (s : St) : Pop → St × List Tok
   | .fault _ fid act => faultPop c s fid act
-  | .cancel _ _ => (s, [])
+  | .cancel _ fid => ({ s with cancelled := fid :: s.cancelled }, [])
+  | .healall _ => ({ s with ws := s.ws.healAll }, [])
   | .job t j false =>
     if (s.procs j).st = .idle then
       let r := exec c j t (c.job j).ops 0 s
@@ -214,7 +226,7 @@ def pending (c : Case) (s : St) : Nat :=
       | _ => true).length
   + ((List.range c.faults.length).filter fun f =>
       match c.faults[f]? with
-      | some ft => !ft.cancelled && (!s.fired.contains (f, true) || (ft.r.isSome && !s.fired.contains (f, false)))
+      | some ft => !s.cancelled.contains f && (!s.fired.contains (f, true) || (ft.r.isSome && !s.fired.contains (f, false)))
       | none => false).length
 
 end HappyModel.C06
